@@ -25,10 +25,10 @@ def specs_for(ctx):
             tissue = {"kind": "equilibrium", "ncells": rng.choice([6, 12, 20] if ctx.quick else [6, 12, 20, 40]),
                       "mobius": rng.choice([0.0, 0.6, 1.3]), "noise": rng.choice([0, 0, 0.1, 0.5])}
             ext = 1.0
-        far = rng.random() < 0.1
+        far = rng.random() < 0.2
         simA = {"theta": rng.uniform(0, 2 * math.pi), "scale": 1.0, "offset_sizes": rng.uniform(0, 1), "extent": ext}
         simB = {"theta": rng.choice([rng.uniform(0, 2 * math.pi), rng.choice([0, 1, 2, 3]) * math.pi / 2 + rng.choice([-1, 1]) * 2e-3]),
-                "scale": 10 ** (rng.uniform(-8, -5) if rng.random() < 0.15 else rng.uniform(-3, 3)), "offset_sizes": rng.choice([2000, 9000]) if far else rng.choice([0, 1, 3, 30, 100]),
+                "scale": 10 ** (rng.uniform(-8, -5) if rng.random() < 0.15 else rng.uniform(-3, 3)), "offset_sizes": rng.choice([1500, 2500, 3500, 9000]) if far else rng.choice([0, 1, 3, 30, 100]),
                 "offset_angle": rng.uniform(0, 6.28), "extent": ext, "reflect": rng.random() < 0.4}
         specs.append({"pair": True, "pair_kind": "similarity", "tissue": tissue, "k": rng.choice([1, 2, 4, 8]),
                       "seed": rng.randrange(10 ** 9), "want": ["C06"], "runA": {"sim": simA}, "runB": {"sim": simB},
